@@ -75,7 +75,16 @@ Proof.
   destruct (ctf_from_int w) as [[[[e d] c] o] s]. lia.
 Qed.
 
+(* the record serialisers the models use are the ones in the source (regenerated each run) *)
+Theorem C11_record_bytes_are_source :
+  (forall i, inforec_bytes (i_cnt i) (i_hash i) (i_off i) = ser_info i) /\
+  (forall c, chunk_bytes (c_index c) (c_hash c) (c_size c) (c_id c) (c_type c) = ser_chunk c).
+Proof.
+  split; intros x; [unfold inforec_bytes, ser_info|unfold chunk_bytes, ser_chunk]; cbn [concat]; now rewrite app_nil_r.
+Qed.
+
 Print Assumptions C11_tamper.
+Print Assumptions C11_record_bytes_are_source.
 Print Assumptions C11_record_injective.
 Print Assumptions C11_bytes_of_load.
 Print Assumptions C11_load_of_bytes.
